@@ -2,7 +2,7 @@
 from core import term as T
 
 ID = "C13"
-GEN = []
+GEN = ["nodemaker"]
 RULE = ("cases: interleavings of up to 8 requested operations (synchronous success / synchronous exception / asynchronous) "
         "and completions (success or failure) of the running one, chosen by the seeded PRNG (bounded exhaustive over all "
         "interleavings of <= 4 operations in the thorough tier); non-trivial = at least two operations requested while "
@@ -25,7 +25,7 @@ META = {
     "trusted_base": ["Model/Serializer.v as a reading of twisted.internet.defer semantics"],
     "assumptions": ["an operation passed to _do_serialized does not itself call a serialised method of a MutableFileNode (documented precondition in the code)"],
 }
-IMPORTS = ["Model.Serializer"]
+IMPORTS = ["Model.Serializer", "Gen.NodeMakerKey"]
 
 
 class Boom(Exception):
@@ -260,7 +260,87 @@ def run(ctx):
         ctx.mismatch("serializer-trace-differs", "model trace and real _do_serialized trace differ", case={"inputs": info[ix]},
                      correspondence="do_serialized-trace-vs-model")
     ctx.trace(len(terms) - len(bad))
+    memokey_cases(ctx)
     grid_cases(ctx)
+
+
+def memokey_cases(ctx):
+    """Gen/NodeMakerKey.v (translated from nodemaker.py) against the keys a real NodeMaker's _node_cache ends up with."""
+    import os
+    from allmydata import uri
+    from allmydata.nodemaker import NodeMaker
+    from allmydata.unknown import UnknownNode
+    ctx.correspondence("nodemaker-cache-key-vs-model")
+    terms, info = [], []
+    n = ctx.n(60, 400)
+    for i in range(n):
+        r = ctx.rng("memokey", i)
+        rb = lambda k_: bytes(r.getrandbits(8) for _ in range(k_))
+        kind = r.choice(["ssk", "mdmf", "dir2", "dir2-mdmf", "chk", "lit", "ro-ssk", "unknown", "none"])
+        if kind in ("ssk", "dir2"):
+            u = uri.WriteableSSKFileURI(rb(16), rb(32))
+        elif kind in ("mdmf", "dir2-mdmf"):
+            u = uri.WriteableMDMFFileURI(rb(16), rb(32))
+        elif kind == "ro-ssk":
+            u = uri.WriteableSSKFileURI(rb(16), rb(32)).get_readonly()
+        elif kind == "chk":
+            u = uri.CHKFileURI(rb(16), rb(32), 3, 10, r.randrange(100, 10 ** 6))
+        elif kind == "lit":
+            u = uri.LiteralFileURI(rb(r.randrange(0, 20)))
+        else:
+            u = None
+        if kind == "dir2":
+            u = uri.DirectoryURI(u)
+        elif kind == "dir2-mdmf":
+            u = uri.MDMFDirectoryURI(u)
+        if kind == "unknown":
+            w, ro = b"x-future-cap:" + rb(4).hex().encode(), r.choice([None, b"x-future-ro:" + rb(4).hex().encode()])
+        elif kind == "none":
+            w, ro = r.choice([None, b""]), r.choice([None, b""])
+        elif u.is_readonly():
+            w, ro = r.choice([None, b""]), u.to_string()
+        else:
+            w = u.to_string()
+            ro = r.choice([None, b"", u.get_readonly().to_string(), b"URI:LIT:" + rb(3).hex().encode()])
+        di = (not u.is_mutable()) and r.random() < 0.5 if u is not None else False
+        nm = NodeMaker(None, None, None, None, None, {"k": 3, "n": 10}, None, None)
+        node = nm.create_from_cap(w, ro, deep_immutable=di)
+        keys = sorted(nm._node_cache.keys())
+        cached = keys[0] if keys else None
+        ctx.case(("memokey", kind, w, ro, di), kind="memokey:" + kind)
+        # the model gives the key a lookup USES; the cache holds it only for mutable nodes
+        mutable = (not isinstance(node, UnknownNode)) and node.is_mutable()
+        opt = lambda b_: "None" if b_ is None else "(Some %s)" % T.bytes_(b_)
+        expect = opt(cached) if (mutable and isinstance(cached, bytes)) else None      # a key that is not a byte string matches no model key
+        if mutable:
+            terms.append("option_bytes_eqb (memokey %s %s %s) %s" % (T.boolean(di), opt(w), opt(ro), expect) if isinstance(cached, bytes) else "false")
+            info.append({"kind": kind, "writecap": repr(w), "readcap": repr(ro), "deep_immutable": di, "cache_key": repr(cached)})
+            # direct oracle: a second lookup by the write cap alone, and one with another read cap, give the same object
+            if w:
+                again = nm.create_from_cap(w, None, deep_immutable=di)
+                other = nm.create_from_cap(w, b"URI:LIT:" + rb(2).hex().encode(), deep_immutable=di)
+            else:               # only a read cap: None and b"" in the write slot are the same lookup
+                again = nm.create_from_cap(None, ro, deep_immutable=di)
+                other = nm.create_from_cap(b"", ro, deep_immutable=di)
+            if again is not node or other is not node:
+                ctx.oracle_fail("nodemaker-cache-miss", "NodeMaker.create_from_cap gives different node objects for one %s write cap depending on the "
+                                "read cap passed alongside" % kind, case=info[-1])
+        elif keys:
+            ctx.oracle_fail("nodemaker-caches-immutable", "NodeMaker cached a node that is not mutable (%s)" % kind,
+                            case={"kind": kind, "writecap": repr(w), "readcap": repr(ro)})
+        else:
+            terms.append("match memokey %s %s %s with Some _ => %s | None => %s end" % (
+                T.boolean(di), opt(w), opt(ro), T.boolean(bool(w or ro)), T.boolean(not (w or ro))))
+            info.append({"kind": kind, "writecap": repr(w), "readcap": repr(ro), "deep_immutable": di, "cache_key": None})
+    pre = """
+Definition option_bytes_eqb (a b : option (list N)) : bool :=
+  match a, b with Some x, Some y => list_N_eqb x y | None, None => true | _, _ => false end.
+"""
+    bad = ctx.coq_check(["Lib.Hex", "Gen.NodeMakerKey"], terms, preamble=pre, tag="c13key")
+    for ix in bad:
+        ctx.mismatch("nodemaker-cache-key-differs", "the _node_cache key of a real NodeMaker and Gen/NodeMakerKey.memokey differ", case=info[ix],
+                     correspondence="nodemaker-cache-key-vs-model")
+    ctx.trace(len(terms) - len(bad))
 
 
 def grid_cases(ctx):
@@ -286,6 +366,51 @@ def grid_cases(ctx):
             ctx.case(("cache", seed), kind="grid-node-cache")
             if n1 is not n2 or n1._node is not n2._node:
                 ctx.oracle_fail("nodemaker-cache-miss", "two lookups of the same directory cap gave different node objects", case={"seed": seed})
+            # every way of resolving the same write cap -- directly, with its read cap alongside (what a parent directory's
+            # child lookup does), through a parent directory -- must reach the SAME mutable node, hence one operation queue
+            parent = g.run(c.create_dirnode())
+            g.run(parent.set_node(u"sub", dirnode))
+            mfile = g.run(g.create_mutable(b"", version=r.choice(["sdmf", "mdmf"])))
+            g.run(parent.set_node(u"file", mfile))
+            rocap = dirnode.get_readonly_uri()
+            handles = {"direct": n1,
+                       "direct+ro": c.create_node_from_uri(cap, rocap),
+                       "nodemaker(rw,ro)": c.nodemaker.create_from_cap(cap, rocap),
+                       "via-parent": g.run(parent.get(u"sub"))}
+            for how, h in sorted(handles.items()):
+                ctx.case(("cache", seed, how), kind="grid-node-cache:" + how)
+                if h._node is not n1._node:
+                    ctx.oracle_fail("nodemaker-cache-miss", "the directory write cap resolved %s gives a different mutable node than the direct lookup: "
+                                    "two independent operation queues for one file" % how, case={"seed": seed, "lookup": how})
+            fhandles = {"direct": c.create_node_from_uri(mfile.get_uri()),
+                        "direct+ro": c.create_node_from_uri(mfile.get_uri(), mfile.get_readonly_uri()),
+                        "via-parent": g.run(parent.get(u"file"))}
+            for how, h in sorted(fhandles.items()):
+                ctx.case(("cache-file", seed, how), kind="grid-node-cache-file:" + how)
+                # (the object create_mutable_file returned is not "obtained through a capability string" and is in fact
+                #  never entered into the cache; the property speaks of lookups, so lookups are compared with each other)
+                if h is not fhandles["direct"]:
+                    ctx.oracle_fail("nodemaker-cache-miss", "the mutable file write cap resolved %s gives a different node object than the direct "
+                                    "lookup" % how, case={"seed": seed, "lookup": how, "file": True})
+            # back-to-back modifications through the different handles: none may fail, none may be lost
+            toks = [b"<%d>" % j for j in range(nedits)]
+            hl = [fhandles[k_] for k_ in sorted(fhandles)]
+            r.shuffle(hl)
+
+            def appender(tok):
+                return lambda old, servermap, first_time: (old or b"") + tok
+            dsf = [hl[j % len(hl)].modify(appender(toks[j])) for j in range(nedits)]
+            outf = g.run(defer.DeferredList(dsf, consumeErrors=True), outcome=True)
+            final = g.run(g.mutable_read(mfile), outcome=True)
+            ctx.case(("file-edits", seed, nedits), kind="grid-concurrent-file-edits")
+            if outf.status != "ok" or not all(ok_ for ok_, _ in outf.value):
+                ctx.oracle_fail("concurrent-edit-failed", "a modification issued back to back through handles of one mutable file failed: %r" % (outf,),
+                                case={"seed": seed, "edits": nedits, "file": True})
+            elif final.status != "ok" or sorted(final.value.replace(b">", b"> ").split()) != sorted(toks):
+                ctx.oracle_fail("concurrent-edit-lost", "modifications through handles of one mutable file lost an update: file holds %r, expected the tokens %r" % (
+                    final.value, toks), case={"seed": seed, "edits": nedits, "file": True})
+            # and edits of the directory through all handles at once (below) use them too
+            n2 = handles[r.choice(sorted(handles))]
             lits = [b"URI:LIT:" + bytes([97 + j]) * 2 for j in range(nedits)]
             from allmydata.util import base32
             lits = [b"URI:LIT:" + base32.b2a(b"child%d" % j) for j in range(nedits)]
